@@ -24,10 +24,11 @@ func init() {
 	register(&Prop{
 		ID:          "C12",
 		Title:       "Routers deliver each request to the client registered under its name",
-		Explanation: "R12.1 every checked-in *_router.pb.go and *_wrap.pb.go is an instance of the current template: the template file is rendered inside the checker with a model rebuilt from type information (names from the file's own compile-time assertion, methods and their streaming shape from the service's Server interface in declaration order) and compared with the file as go/scanner token streams (imports excluded). R12.2 for every go:generate directive under pkg/trait every service of the named proto has a router and a wrapper in that package and the router declares (does not inherit) every RPC of the service with the interface's signature. R12.3 forwarding semantics of every router method on SSA: lookup by request.Name, lookup errors returned untouched, the same request forwarded to the same method, unary results returned as is; streams run on a context derived from the caller's stream, forward the header before the first message, forward each received message itself, set the trailer, map io.EOF to nil and cancel the child when the caller cannot be sent to. R12.4 the registry's decision tables (Add returns the previous client, Remove the removed one and deletes only what is present, Get: registry, then fallback, then factory with a re-check under the exclusive lock, Auto change only when inserted, miss is NotFound) with callbacks and factories invoked under no lock. R12.5 replaceEmptyNameField sets the name only on the path where the message has a string field `name` whose value is empty. R12.4 also: the error returned with a found client is nil or that lookup's own error result. R12.6 both generators execute the service template in every iteration over a file's services. Does NOT decide the behaviour of generated gRPC client/stream code or of protoc, nor that the generators' main.go would emit these bytes (they are not run; file naming and import layout are outside the comparison).",
+		Explanation: "R12.1 every checked-in *_router.pb.go and *_wrap.pb.go is an instance of the current template: the template file is rendered inside the checker with a model rebuilt from type information (names from the file's own compile-time assertion, methods and their streaming shape from the service's Server interface in declaration order) and compared with the file as go/scanner token streams (imports excluded). R12.2 for every go:generate directive under pkg/trait every service of the named proto has a router and a wrapper in that package and the router declares (does not inherit) every RPC of the service with the interface's signature. R12.3 forwarding semantics of every router method on SSA: lookup by request.Name, lookup errors returned untouched, the same request forwarded to the same method, unary results returned as is; streams run on a context derived from the caller's stream, forward the header before the first message, forward each received message itself, set the trailer, map io.EOF to nil and cancel the child when the caller cannot be sent to. R12.4 the registry's decision tables (Add returns the previous client, Remove the removed one and deletes only what is present, Get: registry, then fallback, then factory with a re-check under the exclusive lock, Auto change only when inserted, miss is NotFound) with callbacks and factories invoked under no lock. R12.5 replaceEmptyNameField sets the name only on the path where the message has a string field `name` whose value is empty. R12.4 also: the error returned with a found client is nil or that lookup's own error result. R12.6 both generators execute the service template in every iteration over a file's services. R12.12 every field of the router that options configure is written by exactly one With… option (the fallback is not a factory). Does NOT decide the behaviour of generated gRPC client/stream code or of protoc, nor that the generators' main.go would emit these bytes (they are not run; file naming and import layout are outside the comparison).",
 		Assumptions: []string{"text/template semantics; the template model mirrors cmd/protoc-gen-router/main.go newServiceModel and cmd/protoc-gen-wrapper/main.go", "grpc ClientStream/ServerStream contracts"},
 		Run:         runC12,
 		Controls: []Control{
+			{Name: "fallback-option-writes-the-factory", File: "pkg/router/router.go", Old: "\t\tr.fallback = f\n", New: "\t\tr.factory = f\n", Expect: "R12.12"},
 			{Name: "router-name-cut-by-prefix-length", File: "cmd/protoc-gen-router/main.go", Old: "\treturn s[len(s)-len(ls):]", New: "\treturn s[len(lp):]", Expect: "R12.11"},
 			{Name: "wrapper-import-path-drifts", File: "cmd/protoc-gen-wrapper/main.go", Old: "github.com/smart-core-os/sc-golang/pkg/trait/%s", New: "github.com/smart-core-os/sc-golang/pkg/traits/%s", Expect: "R12.9"},
 			{Name: "wrapper-strips-only-the-first-underscore", File: "cmd/protoc-gen-wrapper/main.go", Old: "\tpkg = strings.ReplaceAll(pkg, \"_\", \"\")\n", New: "\tpkg = strings.Replace(pkg, \"_\", \"\", 1)\n", Expect: "R12.8"},
@@ -293,6 +294,8 @@ func runC12(c *an.Ctx) {
 	c.Min("R12.10", 3)
 	r1211(c, "R12.11")
 	c.Min("R12.11", 2)
+	r1212(c, "R12.12")
+	c.Min("R12.12", 2)
 	c.Min("R12.8", 1)
 	r121and2(c)
 	r123(c)
@@ -1593,6 +1596,57 @@ func r129(c *an.Ctx, rule string) {
 // what strings.TrimPrefix removed from the lower-cased name: s[len(s)-len(trimmed):]. Cutting by the prefix's
 // length instead chops the first letters off every service that does not start with its package's trait name
 // (electricpb's MemorySettingsApi becomes ttingsApi: another file, another type; the checked-in router goes stale).
+// r1212: the router's options each configure their own setting. The factory (asked last, its client remembered) and
+// the fallback (asked first, nothing remembered) are two fields with two options; an option writing the other's
+// field turns a fallback into a factory - clients the fallback hands out are registered, announced as changes and
+// never asked for again - and silently replaces whatever the other option configured.
+func r1212(c *an.Ctx, rule string) {
+	setters := map[string]map[string]token.Pos{}
+	for _, fn := range c.Prog.FuncsIn("pkg/router") {
+		if strings.HasSuffix(c.Prog.RelFile(fn.Pos()), "_test.go") {
+			continue
+		}
+		top := fn
+		for top.Parent() != nil {
+			top = top.Parent()
+		}
+		if top == fn || !strings.HasPrefix(top.Name(), "With") {
+			continue
+		}
+		an.Instrs(fn, func(in ssa.Instruction) {
+			st, ok := in.(*ssa.Store)
+			if !ok {
+				return
+			}
+			_, sn, fld, isF := an.FieldOf(st.Addr)
+			if !isF || !strings.HasSuffix(sn, "pkg/router.router") {
+				return
+			}
+			if setters[fld] == nil {
+				setters[fld] = map[string]token.Pos{}
+			}
+			setters[fld][an.FuncName(top)] = st.Pos()
+		})
+	}
+	var flds []string
+	for f := range setters {
+		flds = append(flds, f)
+	}
+	sort.Strings(flds)
+	for _, f := range flds {
+		var names []string
+		pos := token.NoPos
+		for n, p := range setters[f] {
+			names = append(names, n)
+			pos = p
+		}
+		sort.Strings(names)
+		c.Check(len(names) == 1, rule, "pkg/router.router."+f+"|is configured by one option", pos, strings.Join(names, ", "),
+			"the router setting "+f+" is written by more than one option ("+strings.Join(names, ", ")+"): one option takes over the other's role (a fallback whose clients are registered and remembered like a factory's) and the later of the two replaces the earlier")
+	}
+	c.Count("router_option_fields", len(flds))
+}
+
 func r1211(c *an.Ctx, rule string) {
 	for _, gen := range []string{"cmd/protoc-gen-router", "cmd/protoc-gen-wrapper"} {
 		fn := c.Prog.Func(gen, "", "trimPrefixIgnoreCase")
